@@ -29,11 +29,11 @@ func main() {
 	for p := 1; p <= 64; p++ {
 		parts = append(parts, p)
 	}
-	depth := 4
+	depth := 6
 	if quick {
 		maxN = 8
 		parts = []int{1, 2, 3, 4, 5, 6, 7, 8, 9, 10, 12, 15, 16, 24, 32, 64}
-		depth = 3
+		depth = 5
 	}
 	t0 := time.Now()
 	f, ok1 := placemc.RunFresh(col, maxN, parts, dl)
